@@ -609,7 +609,9 @@ def refine_droplet(
         for key in ["ftol", "xtol", "gtol"]:
             least_squares_params.setdefault(key, tolerance)
 
-    if not isinstance(droplet, DiffuseDroplet):
+    if isinstance(droplet, DiffuseDroplet):
+        droplet = droplet.copy()  # do not modify argument
+    else:
         droplet = DiffuseDroplet.from_droplet(droplet)
     if droplet.interface_width is None:
         droplet.interface_width = phase_field.grid.typical_discretization
